@@ -5,6 +5,7 @@ open Litex Litex.Driver Litex.Axi.Lite
 def openMachine (args : List String) (hin hout : IO.FS.Stream) : Option (IO Bool) :=
   match args with
   | "shared" :: rest => (parseCfg rest).map fun c => serve (numBus c.n c.m (Shared.full c)) hin hout
+  | "sharedt" :: rest => (parseTCfg rest).map fun c => serve (numBus c.n c.m (SharedT.full c)) hin hout
   | "xbar" :: rest => (parseCfg rest).map fun c => serve (numBus c.n c.m (Crossbar.full c)) hin hout
   | ["arb", n, full] => do
     let n ← n.toNat?; let full ← parseBool full
